@@ -397,6 +397,9 @@ def accumulation(rep, repo, mod, kernel_side=True):
     rep.ob('C13.accumulate', 'default a_ctrl rows have index -1 (ignored)', ok)
     if not ok:
         rep.violate('C13.accumulate', smod, init, 'a_ctrl default', 'without a_ctrl every line (and the 3 special slots) must get the row (-1, 0, 0): accumulation disabled', node=init)
+    from checks import wavesim_init_eval
+    if wavesim_init_eval.decide(rep, repo, 'C13.accumulate', ('abuf',)):
+        return          # WaveSim.__init__ evaluated for several accumulation tables
     wi = mod.func('WaveSim.__init__')
     t = [cz(s) for s in body_no_doc(wi)]
     ok = 'self.abuf_len=self.ops[:,6].max()+1' in t and 'self.abuf=np.zeros((self.abuf_len,sims),dtype=np.int32)ifself.abuf_len>0elsenp.zeros((1,1),dtype=np.int32)' in t
